@@ -118,6 +118,17 @@ def run_boundary(ctx, case):
         ctx.close(E.hf_interpolate_dm(rho, alpha=a), a * rho + (1 - a) * np.eye(D) / D, 1e-13, 'hf_interpolate_dm(alpha) = alpha rho + (1-alpha) I/N')
         ctx.close(E.hf_interpolate_dm(rho, alpha=a), E.hf_interpolate_dm(rho, beta=a * norms[i]), 1e-12, 'alpha and beta forms agree')
         ctx.tick()
+    if case['prng'] % 4 == 0:
+        # a direction written down with integers (a computational basis projector, or a 0/1 diagonal): same rays as its float copy
+        rho_i = np.zeros((D, D), dtype=np.int64)
+        j = int(r.integers(0, D))
+        rho_i[j, j] = 1
+        rho_f = rho_i.astype(np.float64)
+        ctx.close(nq.gellmann.dm_to_gellmann_norm(rho_i), gm_norm(rho_f[None])[0], 1e-12, 'Gell-Mann norm of an integer-dtype state = norm of its float copy')
+        ctx.close(E.get_density_matrix_boundary(rho_i), E.get_density_matrix_boundary(rho_f), 1e-12, 'state-space boundary of an integer-dtype direction = boundary of its float copy')
+        ctx.close(E.get_ppt_boundary(rho_i, dims), E.get_ppt_boundary(rho_f, dims), 1e-12, 'PPT boundary of an integer-dtype direction = boundary of its float copy')
+        ctx.close(E.hf_interpolate_dm(rho_i, beta=case['b']), ray(rho_f, case['b']), 1e-12, 'hf_interpolate_dm(beta) of an integer-dtype direction')
+        ctx.label('integer dtype direction')
 
 
 # --------------------------------------------------------------------------------------------- inner models
